@@ -10,13 +10,22 @@ XSS = {"JAVA_TOOL_OPTIONS": "-Xss64m"}
 def run(ctx):
     vlib.cargo_build(ctx)
     quick = ctx.tier == "quick"
-    st = vlib.tlc(ctx, "StreamsMC.tla", "Streams.cfg" if quick else "Streams_t.cfg", "streams", workers=4, timeout=3000, heap="12g")
-    vlib.tlc_must_pass(ctx, st, "Streams model (no deadlock, termination, delivery)")
+    st = vlib.tlc(ctx, "StreamsMC.tla", "Streams.cfg" if quick else "Streams_t.cfg", "streams", workers=4, timeout=6000, heap="12g")
+    vlib.tlc_must_pass(ctx, st, "Streams model, spawn API (no deadlock, termination, delivery, returns once both streams close)")
+    so = vlib.tlc(ctx, "StreamsMC.tla", "Streams_output.cfg" if quick else "Streams_output_t.cfg", "streams-output", workers=4, timeout=6000, heap="12g")
+    vlib.tlc_must_pass(ctx, so, "Streams model, output API")
+    os.remove(so["out"])
     neg = vlib.tlc(ctx, "StreamsMC.tla", "Streams_negative.cfg", "sequential-control", workers=2, timeout=600)
     if not (neg["violated"] and "Deadlock" in neg["violated"]):
         raise vlib.ToolError("vacuity guard: the sequential copier variant does not deadlock in the model")
-    ctx.add("states", st["distinct"])
-    ctx.add("transitions", st["generated"])
+    neg = vlib.tlc(ctx, "StreamsMC.tla", "Streams_neg_write.cfg", "single-write-control", workers=2, timeout=600)
+    if not (neg["violated"] and ("InOrder" in neg["violated"] or "Delivered" in neg["violated"])):
+        raise vlib.ToolError(f"vacuity guard: a copier that calls write once per chunk loses nothing in the model ({neg['violated']})")
+    neg = vlib.tlc(ctx, "StreamsMC.tla", "Streams_neg_wait.cfg", "spawn-waits-control", workers=2, timeout=600)
+    if not (neg["violated"] and "Returns" in neg["violated"]):
+        raise vlib.ToolError(f"vacuity guard: a spawn API that waits for the child's exit satisfies Returns in the model ({neg['violated']})")
+    ctx.add("states", st["distinct"] + so["distinct"])
+    ctx.add("transitions", st["generated"] + so["generated"])
     mw = vlib.tlc(ctx, "MappedWrite.tla", "MappedWrite.cfg" if quick else "MappedWrite_t.cfg", "mapped", workers=1, env=XSS, timeout=3000)
     if not mw["ok"]:
         if any("Assumption" in e for e in mw["errors"]):
@@ -40,8 +49,9 @@ def run(ctx):
             bad = int(line.split(",")[1].strip(" >\n"))
     if bad is not None:
         ev = json.loads(open(trace).read().splitlines()[bad - 1])
-        ctx.violation("stream delivery", f"child script {ev['script']}: Output/out={ev['out']} err={ev['err']} writers out={ev.get('writer_out')} "
-                      f"err={ev.get('writer_err')} done={ev['done']}", {"event": ev}, "streams_trace")
+        ctx.violation("stream delivery", f"{ev.get('api')}_and_write_streams, child script {ev['script']} (lingering={ev.get('linger')}, writer accepts "
+                      f"{ev.get('writer_cap_bytes') or 'all'} bytes per call): Output/out={ev['out']} err={ev['err']} writers out={ev.get('writer_out')} "
+                      f"err={ev.get('writer_err')} done={ev['done']} returned while the child was running={ev.get('returned_before_exit')}", {"event": ev}, "streams_trace")
     elif not r["ok"]:
         raise vlib.ToolError(f"TLC failed on the stream trace: {r['errors'][:2]}")
     else:
@@ -60,12 +70,16 @@ def run(ctx):
     ctx.assumptions += [
         "child programs are scripts of up to 3 (thorough 4) writes of 0-3 units of 30 000 bytes to stdout/stderr (up to 90 000 bytes per "
         "write, i.e. more than a 64 KiB pipe), run with delays of 0 / 200 us / 2 ms between units; a 30 s watchdog counts as deadlock",
+        "model writer capacity 1 = a writer that takes at most 1000 / 7777 / 1 bytes per write call, 3 = takes everything; a lingering child "
+        "closes stdout and stderr and then blocks on its standard input, which the harness closes only after the call returned (no timing)",
         "MappedWrite is driven with a prefixing mapper (f(empty) is not empty) through an inner writer that accepts at most 3 bytes per "
         "write call; symbols are 'marker' and 'other byte'",
     ]
     return vlib.finish(ctx, rule="TLC: no deadlock / termination / exact in-order delivery for every script, sequential-copier negative "
-                       "control must deadlock; every script executed by a real child through output_and_write_streams (writers and Output "
-                       "decoded to unit ids, validated by TLC). TLC: chunking independence for every string over {marker, other} of "
+                       "control must deadlock, single-write-per-chunk control must lose data, spawn-waits-for-exit control must violate Returns; "
+                       "every (script, lingering, writer capacity) case executed by a real child through spawn_and_write_streams, and through "
+                       "output_and_write_streams when the child exits by itself (writers and Output decoded to unit ids, validated by TLC; a "
+                       "lingering child must still be running when the spawn API returns). TLC: chunking independence for every string over {marker, other} of "
                        "length <= 6 (thorough 8) and every chunking; each replayed into mapped (drop and unwrap), line_mapped and tee with "
                        "the inner bytes compared after every write. Non-trivial: >= 2 chunks / >= 3 units.", exhaustive=True)
 
